@@ -285,9 +285,22 @@ namespace nmtools::utils
                 // TODO: use maybe type
                 auto t_shape = ::nmtools::shape(t);
                 auto u_shape = ::nmtools::shape(u);
-                nmtools_cassert( ::nmtools::utils::isequal(t_shape,u_shape)
-                    , "shape mismatch for isclose"
-                );
+                // arrays of different shape are not close
+                {
+                    using t_shape_t = meta::remove_cvref_t<decltype(t_shape)>;
+                    using u_shape_t = meta::remove_cvref_t<decltype(u_shape)>;
+                    if constexpr (meta::is_fixed_index_array_v<t_shape_t> && meta::is_fixed_index_array_v<u_shape_t>) {
+                        if constexpr (meta::fixed_index_array_size_v<t_shape_t> != meta::fixed_index_array_size_v<u_shape_t>) {
+                            return false;
+                        } else if (!::nmtools::utils::isequal(t_shape,u_shape)) {
+                            return false;
+                        }
+                    } else if constexpr (meta::is_index_array_v<t_shape_t> && meta::is_index_array_v<u_shape_t>) {
+                        if (!::nmtools::utils::isequal(t_shape,u_shape)) {
+                            return false;
+                        }
+                    }
+                }
                 auto t_indices = ndindex(t_shape);
                 auto u_indices = ndindex(u_shape);
                 auto numel = t_indices.size();
